@@ -310,6 +310,9 @@ func (b *c19base) exercise(a artefact, queries []*bs.Query, exact [][]string) (f
 				for {
 					rb, ok, err := sc.Next()
 					if err != nil || !ok {
+						if err == nil && framingMalformed(data) {
+							add("c19-scanner-accepts-malformed", "BlockRowScanner reaches the end of block %d without an error although its %d decoded bytes are not a sequence of whole length-prefixed rows", i, len(data))
+						}
 						break
 					}
 					info, ierr := refmodel.Analyze(rb)
@@ -348,6 +351,20 @@ func (b *c19base) exercise(a artefact, queries []*bs.Query, exact [][]string) (f
 					add("c19-query-wrong-row:"+flow, "%s flow, query %d returns row %s %d times (written %d times)", flow, qi, c, k, b.rows[c])
 				}
 			}
+			if mustBeExact && qi == 0 && qr.Err == nil && qr.QueryErr == nil {
+				// detectable without any checksum: the stored bytes of an uncompressed block are
+				// not a sequence of whole length-prefixed rows, so the match-all scan must fail
+				for bi := range meta.DataBlocks {
+					blk := &meta.DataBlocks[bi]
+					if blk.Compression != bs.CompressionNone || blk.RowDataOffset < 0 || blk.RowDataSize < 0 || blk.RowDataOffset+blk.RowDataSize > len(a.data) {
+						continue
+					}
+					if framingMalformed(a.data[blk.RowDataOffset : blk.RowDataOffset+blk.RowDataSize]) {
+						add("c19-malformed-framing-accepted:"+flow, "%s flow, match-all query finished with Err()==nil although the row data of block %d is not a sequence of whole length-prefixed rows", flow, bi)
+						break
+					}
+				}
+			}
 			if mustBeExact && !b.noHash && qr.Err == nil && qr.QueryErr == nil {
 				if miss, extra := diffMultiset(qr.Rows, exact[qi]); len(miss)+len(extra) > 0 {
 					add("c19-silent-wrong-answer", "%s flow, query %d finished with Err()==nil but the answer is not the uncorrupted one: missing %s, extra %s", flow, qi, short(miss, 2), short(extra, 2))
@@ -363,6 +380,23 @@ func (b *c19base) exercise(a artefact, queries []*bs.Query, exact [][]string) (f
 	}
 	run("metastore-held", b.md, true)
 	return
+}
+
+// framingMalformed is the row data framing of FILE_FORMAT.md read independently: a
+// sequence of (uint32 little-endian length, that many bytes) covering d exactly.
+func framingMalformed(d []byte) bool {
+	for pos := 0; pos < len(d); {
+		if len(d)-pos < 4 {
+			return true
+		}
+		l := uint64(binary.LittleEndian.Uint32(d[pos:]))
+		pos += 4
+		if l > uint64(len(d)-pos) {
+			return true
+		}
+		pos += int(l)
+	}
+	return false
 }
 
 func c19Queries() []*bs.Query {
@@ -520,7 +554,7 @@ func init() {
 			}
 			return cs
 		},
-		Rule:        "engine-written base file (2 blocks x 3 rows) per compression; exhaustively: every byte x {8 single-bit flips, 0x00, 0xFF, +1}; every 2-8 byte window x {zero, ones, inverted}; every truncation length; extensions; deletions and duplications between all pairs of structural boundaries ±1; CRC-consistent footers with every framing field (and, thorough, every pair) set to boundary values; each artefact goes through ReadFileMetadata, the block helpers, a scan, and 3 queries in two flows (file describes itself / MetaStore holds the original metadata); oracle: no panic, no negative seek, allocation <= 256 x file size + 8 MiB, rows ⊆ written, exact-or-error when the MetaStore holds the metadata",
+		Rule:        "engine-written base file (2 blocks x 3 rows) per compression; exhaustively: every byte x {8 single-bit flips, 0x00, 0xFF, +1}; every 2-8 byte window x {zero, ones, inverted}; every truncation length; extensions; deletions and duplications between all pairs of structural boundaries ±1; CRC-consistent footers with every framing field (and, thorough, every pair) set to boundary values; each artefact goes through ReadFileMetadata, the block helpers, a scan, and 3 queries in two flows (file describes itself / MetaStore holds the original metadata); oracle: no panic, no negative seek, allocation <= 256 x file size + 8 MiB, rows ⊆ written, exact-or-error when the MetaStore holds the metadata; independently of checksums, decoded or stored-uncompressed row data that is not a sequence of whole length-prefixed rows must make the scanner and the match-all query report an error",
 		Assumptions: []string{"UncompressedSize is not in the property's list of arbitrary framing fields and is left valid"},
 	}
 }
